@@ -29,11 +29,16 @@ class Interp(Analyzer):
             elif 'f' in e:
                 if ptr[0] in ('L', 'O'):
                     ptr = ptr[:-1] + (ptr[-1] + (('f', e['n'] or str(e['f']), e.get('adt')),),)
+                elif ptr[0] == 'E':
+                    # a field of an array / slice element (`arr[i].0`): element pointer with a path into the element
+                    ptr = ('E', ptr[1], ptr[2], (ptr[3] if len(ptr) > 3 else ()) + (('f', e['n'] or str(e['f']), e.get('adt')),))
                 else:
                     ptr = ('T',)
             elif 'dc' in e:
                 if ptr[0] in ('L', 'O'):
                     ptr = ptr[:-1] + (ptr[-1] + (('dc', e['dc']),),)
+                elif ptr[0] == 'E':
+                    ptr = ('E', ptr[1], ptr[2], (ptr[3] if len(ptr) > 3 else ()) + (('dc', e['dc']),))
                 else:
                     ptr = ('T',)
             elif 'i' in e:
@@ -118,7 +123,10 @@ class Interp(Analyzer):
             v = self._root_value(ptr, frame, st)
             return self._descend_path(v, ptr[-1], frame, st)
         if k == 'E':
-            return self.read_elem(ptr[1], ptr[2], frame, st)
+            v = self.read_elem(ptr[1], ptr[2], frame, st)
+            if len(ptr) > 3 and ptr[3]:
+                return self._descend_path(v, ptr[3], frame, st) if v is not None else TOP
+            return v
         if k == 'SL':
             return ptr[1]
         return TOP
@@ -182,7 +190,11 @@ class Interp(Analyzer):
                 old = self._root_value(ptr, frame, st)
                 st.mem[('obj', ptr[1])] = self._update_path(old, ptr[2], val, frame, st)
         elif k == 'E':
-            self.write_elem(ptr[1], ptr[2], val, frame, st)
+            if len(ptr) > 3 and ptr[3]:
+                old = self.read_elem(ptr[1], ptr[2], frame, st)
+                self.write_elem(ptr[1], ptr[2], self._update_path(old, ptr[3], val, frame, st) if old is not None and old[0] in ('adt', 'tuple', 'closure') else TOP, frame, st)
+            else:
+                self.write_elem(ptr[1], ptr[2], val, frame, st)
         elif k == 'SL':
             self.havoc_slice(ptr[1], st)
 
